@@ -111,6 +111,12 @@ fn sig(k: &str, cfg: &Config, corpus: &Corpus) -> String {
 
 pub fn replay(c: &Value) -> Option<(String, String)> {
     mute_stdout();
+    if c["kind"] == "cli" {
+        let mut case: CliCase = serde_json::from_value(c["case"].clone()).ok()?;
+        case.label = format!("replay-{}", case.label);
+        let orig = c["label"].as_str()?.to_string();
+        return check_cli(&case).map(|(k, w)| (format!("{k} train-cli {orig}"), w));
+    }
     let cfg: Config = serde_json::from_value(c["cfg"].clone()).ok()?;
     let corpus: Corpus = serde_json::from_value(c["corpus"].clone()).ok()?;
     let texts: Vec<String> = gen::strings(&['a', 'b', 'あ', '1'], 1, 3).iter().map(|t| gen::s(t)).collect();
@@ -242,13 +248,269 @@ pub fn run(tier: Tier) -> ! {
             }
         });
     }
+    // the real train binary
+    if !std::path::Path::new(&format!("{}/train", crate::c19::CLI_DIR)).exists() {
+        machinery_error("train binary not built (the check driver builds it)");
+    }
+    let cases = cli_cases(tier);
+    chk.set("train_cli_runs", json!(cases.len()));
+    cases.par_iter().for_each(|c| {
+        chk.eval(1);
+        chk.nontrivial(1);
+        if let Some((k, what)) = check_cli(c) {
+            chk.violation(format!("{k} train-cli {}", c.label), what, json!({"kind": "cli", "label": c.label, "case": c}));
+        }
+    });
     chk.set("trainings_that_returned_a_model", json!(models.into_inner()));
     chk.sample(json!({"cfg": "cw=1 cn=3 tw=0 tn=2 dict=[a,ab,abc,あ] bucket=2 solver=5", "corpus": "tagged-3cat-partial"}));
     chk.sample(json!({"cfg": "cw=2 cn=2 tw=2 tn=2 solver=1", "corpus": "no-word-boundary", "allowed": "Err, never a panic"}));
     chk.assume("a crash of liblinear (C++) kills the engine process; the driver reports that as a violation with the crash log");
     chk.finish(
-        "window / n-gram sizes incl. 0, n > window and differing windows x dictionaries and buckets x solvers x corpora (empty, single sentence, single class, untagged, tagged with 1-3 categories and absent tags, partially annotated, all-unknown, tag-dictionary-only tokens) plus all tag matrices (2 slots x 2 occurrences: all 81; 3x2 and 2x3: all 729 each in thorough, every 7th in quick) under three configurations: Trainer::new/add_example/train must return Ok or Err; a returned model must serialise, re-read identically, be accepted by Predictor::new with and without tag prediction, predict and tag every text up to 3 characters without panicking, and hold only 16-bit weights; non-trivial = a model was returned; evaluations count (configuration, corpus) pairs",
+        "window / n-gram sizes incl. 0, n > window and differing windows x dictionaries and buckets x solvers x corpora (empty, single sentence, single class, untagged, tagged with 1-3 categories and absent tags, partially annotated, all-unknown, tag-dictionary-only tokens) plus all tag matrices (2 slots x 2 occurrences: all 81; 3x2 and 2x3: all 729 each in thorough, every 7th in quick) under three configurations: Trainer::new/add_example/train must return Ok or Err; a returned model must serialise, re-read identically, be accepted by Predictor::new with and without tag prediction, predict and tag every text up to 3 characters without panicking, and hold only 16-bit weights; plus the real train binary on every data-set combination of a small file pool (several --tok / --part / --dict files, full-width content, duplicate dictionary words, empty lines, no word boundary) x sizes x deterministic solvers {2, 0} x --no-norm: exit 0 or a clean error, and the written model equals (structure exactly, every weight within 3 quantisation steps) the one the library pipeline yields on the same files; non-trivial = a model was returned; evaluations count (configuration, corpus) pairs",
         true,
         &replay,
     )
+}
+
+// ---------------------------------------------------------------------------------------------
+// The real `train` binary (train/src/main.rs is anchored by C11): every data-set combination of a
+// small file pool x flag combinations; the tool must end with exit 0 or a clean error (never a
+// panic or a signal), and with a deterministic solver (0 and 2 use no random numbers) the model it
+// writes must equal the model the library pipeline (parse, normalise, Trainer::new, add_example,
+// train) yields in-process for the same files - tag models compared as a set.
+
+#[derive(Clone, Debug, serde::Serialize, serde::Deserialize)]
+pub struct CliCase {
+    pub label: String,
+    pub tok: Vec<Vec<String>>,
+    pub part: Vec<Vec<String>>,
+    pub dict: Vec<Vec<String>>,
+    pub sizes: (u8, u8, u8, u8, u8),
+    pub solver: u8,
+    pub no_norm: bool,
+}
+
+fn canon(mut m: crate::mirror::ModelSpec) -> crate::mirror::ModelSpec {
+    m.tag_models.sort_by(|a, b| a.token.cmp(&b.token));
+    m
+}
+
+/// In-process expectation: Err(msg) = the pipeline rejects the data (tool must fail cleanly).
+fn cli_expected(c: &CliCase) -> Result<Result<crate::mirror::ModelSpec, String>, String> {
+    use vaporetto_rules::{string_filters::KyteaFullwidthFilter, StringFilter};
+    guard(|| {
+        let norm = |s: Sentence<'static, 'static>| -> Result<Sentence<'static, 'static>, String> {
+            if c.no_norm {
+                return Ok(s);
+            }
+            let new_line = KyteaFullwidthFilter.filter(s.as_raw_text());
+            let mut n = Sentence::from_raw(new_line).map_err(|e| e.to_string())?;
+            n.boundaries_mut().clone_from_slice(s.boundaries());
+            n.reset_tags(s.n_tags());
+            n.tags_mut().clone_from_slice(s.tags());
+            Ok(n)
+        };
+        let mut sents = vec![];
+        for f in &c.tok {
+            for l in f {
+                sents.push(norm(Sentence::from_tokenized(l).map_err(|e| e.to_string())?)?);
+            }
+        }
+        for f in &c.part {
+            for l in f {
+                sents.push(norm(Sentence::from_partial_annotation(l).map_err(|e| e.to_string())?)?);
+            }
+        }
+        let mut tag_dict = vec![];
+        let mut words = std::collections::BTreeSet::new();
+        for f in &c.dict {
+            for l in f {
+                let s = norm(Sentence::from_tokenized(l).map_err(|e| e.to_string())?)?;
+                for t in s.iter_tokens() {
+                    words.insert(t.surface().to_string());
+                }
+                tag_dict.push(s);
+            }
+        }
+        liblinear::toggle_liblinear_stdout_output(false);
+        let (cw, cn, tw, tn, dn) = c.sizes;
+        let mut tr = vaporetto::Trainer::new(cw, cn, tw, tn, words.into_iter().collect::<Vec<_>>(), dn, &tag_dict).map_err(|e| e.to_string())?;
+        for s in &sents {
+            tr.add_example(s);
+        }
+        let m = tr.train(0.01, 1.0, solver(c.solver)).map_err(|e| e.to_string())?;
+        crate::mirror::ModelSpec::from_model(&m).map(canon)
+    })
+}
+
+/// Structural comparison with a tolerance of `tol` quantisation steps per weight (liblinear's
+/// floating-point results differ in the last bits between the tool's build and the harness build;
+/// a weight that quantises to 0 on one side may be absent there). Returns a description of the
+/// first difference.
+pub fn approx_diff(a: &crate::mirror::ModelSpec, b: &crate::mirror::ModelSpec, tol: i32) -> Option<String> {
+    use std::collections::BTreeMap;
+    if a.char_window_size != b.char_window_size || a.type_window_size != b.type_window_size {
+        return Some(format!("window sizes ({}, {}) vs ({}, {})", a.char_window_size, a.type_window_size, b.char_window_size, b.type_window_size));
+    }
+    let close = |x: &[i32], y: &[i32]| x.len() == y.len() && x.iter().zip(y).all(|(p, q)| (p - q).abs() <= tol);
+    let small = |x: &[i32]| x.iter().all(|p| p.abs() <= tol);
+    if (a.bias - b.bias).abs() > tol {
+        return Some(format!("bias {} vs {}", a.bias, b.bias));
+    }
+    fn cmp<K: Ord + Clone + std::fmt::Debug>(what: &str, x: BTreeMap<K, Vec<i32>>, y: BTreeMap<K, Vec<i32>>, close: &dyn Fn(&[i32], &[i32]) -> bool, small: &dyn Fn(&[i32]) -> bool) -> Option<String> {
+        let keys: std::collections::BTreeSet<K> = x.keys().chain(y.keys()).cloned().collect();
+        for k in keys {
+            match (x.get(&k), y.get(&k)) {
+                (Some(p), Some(q)) if close(p, q) => {}
+                (Some(p), None) | (None, Some(p)) if small(p) => {}
+                (p, q) => return Some(format!("{what} {k:?}: {p:?} vs {q:?}")),
+            }
+        }
+        None
+    }
+    let m1 = |v: &[crate::mirror::NgramData<String>]| v.iter().map(|d| (d.ngram.clone(), d.weights.clone())).collect::<BTreeMap<_, _>>();
+    let m2 = |v: &[crate::mirror::NgramData<Vec<u8>>]| v.iter().map(|d| (d.ngram.clone(), d.weights.clone())).collect::<BTreeMap<_, _>>();
+    if let Some(d) = cmp("character n-gram", m1(&a.char_ngram_model), m1(&b.char_ngram_model), &close, &small) {
+        return Some(d);
+    }
+    if let Some(d) = cmp("type n-gram", m2(&a.type_ngram_model), m2(&b.type_ngram_model), &close, &small) {
+        return Some(d);
+    }
+    let wa: Vec<&String> = a.dict_model.iter().map(|d| &d.word).collect();
+    let wb: Vec<&String> = b.dict_model.iter().map(|d| &d.word).collect();
+    if wa != wb {
+        return Some(format!("dictionary words {wa:?} vs {wb:?}"));
+    }
+    for (p, q) in a.dict_model.iter().zip(&b.dict_model) {
+        if !close(&p.weights, &q.weights) {
+            return Some(format!("dictionary word {:?}: {:?} vs {:?}", p.word, p.weights, q.weights));
+        }
+    }
+    let ta: Vec<(&String, &Vec<Vec<String>>)> = a.tag_models.iter().map(|t| (&t.token, &t.tags)).collect();
+    let tb: Vec<(&String, &Vec<Vec<String>>)> = b.tag_models.iter().map(|t| (&t.token, &t.tags)).collect();
+    if ta != tb {
+        return Some(format!("tag models {ta:?} vs {tb:?}"));
+    }
+    for (p, q) in a.tag_models.iter().zip(&b.tag_models) {
+        if !close(&p.bias, &q.bias) {
+            return Some(format!("tag bias of {:?}: {:?} vs {:?}", p.token, p.bias, q.bias));
+        }
+        let f1 = |v: &[crate::mirror::TagNgramData<String>]| v.iter().flat_map(|d| d.weights.iter().map(move |w| ((d.ngram.clone(), w.rel_position), w.weights.clone()))).collect::<BTreeMap<_, _>>();
+        let f2 = |v: &[crate::mirror::TagNgramData<Vec<u8>>]| v.iter().flat_map(|d| d.weights.iter().map(move |w| ((d.ngram.clone(), w.rel_position), w.weights.clone()))).collect::<BTreeMap<_, _>>();
+        if let Some(d) = cmp(&format!("tag character n-gram of {:?}", p.token), f1(&p.char_ngram_model), f1(&q.char_ngram_model), &close, &small) {
+            return Some(d);
+        }
+        if let Some(d) = cmp(&format!("tag type n-gram of {:?}", p.token), f2(&p.type_ngram_model), f2(&q.type_ngram_model), &close, &small) {
+            return Some(d);
+        }
+    }
+    None
+}
+
+pub fn check_cli(c: &CliCase) -> Option<(String, String)> {
+    let dir = format!("{}/c11-{}", crate::c19::SCRATCH, c.label);
+    let _ = std::fs::remove_dir_all(&dir);
+    std::fs::create_dir_all(&dir).unwrap_or_else(|e| machinery_error(&e.to_string()));
+    let mut args: Vec<String> = vec![];
+    for (kind, files) in [("tok", &c.tok), ("part", &c.part), ("dict", &c.dict)] {
+        for (i, f) in files.iter().enumerate() {
+            let p = format!("{dir}/{kind}{i}.txt");
+            std::fs::write(&p, f.iter().map(|l| format!("{l}\n")).collect::<String>()).unwrap_or_else(|e| machinery_error(&e.to_string()));
+            args.push(format!("--{kind}"));
+            args.push(p);
+        }
+    }
+    let model_path = format!("{dir}/model.zst");
+    let (cw, cn, tw, tn, dn) = c.sizes;
+    args.extend(["--model".to_string(), model_path.clone(), "--solver".into(), c.solver.to_string()]);
+    args.extend(["--charw".to_string(), cw.to_string(), "--charn".into(), cn.to_string(), "--typew".into(), tw.to_string(), "--typen".into(), tn.to_string(), "--dictn".into(), dn.to_string()]);
+    if c.no_norm {
+        args.push("--no-norm".into());
+    }
+    let out = std::process::Command::new(format!("{}/train", crate::c19::CLI_DIR)).args(&args).output().unwrap_or_else(|e| machinery_error(&format!("cannot run train: {e}")));
+    let stderr = String::from_utf8_lossy(&out.stderr).to_string();
+    let code = out.status.code();
+    let crashed = code.is_none() || code == Some(101) || stderr.contains("panicked at");
+    let want = cli_expected(c);
+    let r = (|| {
+        if crashed {
+            return Some(("train-crash".to_string(), format!("train ended with {:?}: {}", out.status, stderr.lines().filter(|l| l.contains("panicked") || l.contains("rror")).collect::<Vec<_>>().join(" | "))));
+        }
+        match want {
+            Err(p) => Some(("pipeline-panic".to_string(), format!("the library pipeline panicked on the same data: {p}"))),
+            Ok(Err(e)) => {
+                if code == Some(0) {
+                    Some(("train-accepts".to_string(), format!("train exited 0 although the library pipeline rejects the data ({e})")))
+                } else {
+                    None
+                }
+            }
+            Ok(Ok(spec)) => {
+                if code != Some(0) {
+                    return Some(("train-rejects".to_string(), format!("train exited with {code:?} ({}) although the library pipeline trains a model", stderr.lines().last().unwrap_or(""))));
+                }
+                let z = match std::fs::read(&model_path) {
+                    Ok(z) => z,
+                    Err(e) => return Some(("train-no-model".to_string(), format!("train exited 0 but wrote no model: {e}"))),
+                };
+                let bytes = match zstd::decode_all(&z[..]) {
+                    Ok(b) => b,
+                    Err(e) => return Some(("train-model-unreadable".to_string(), format!("the written model is not valid zstd: {e}"))),
+                };
+                let got = match vaporetto::Model::read_slice(&bytes) {
+                    Ok((m, rest)) if rest.is_empty() => match crate::mirror::ModelSpec::from_model(&m) {
+                        Ok(g) => canon(g),
+                        Err(e) => machinery_error(&e),
+                    },
+                    Ok((_, rest)) => return Some(("train-model-trailing".to_string(), format!("{} bytes follow the model in the written file", rest.len()))),
+                    Err(e) => return Some(("train-model-unreadable".to_string(), format!("Model::read_slice rejects the written model: {e}"))),
+                };
+                if let Some(what) = approx_diff(&got, &spec, 3) {
+                    return Some(("train-model-differs".to_string(), format!("the model written by train differs from the library pipeline's on the same files: {what}")));
+                }
+                None
+            }
+        }
+    })();
+    let _ = std::fs::remove_dir_all(&dir);
+    r
+}
+
+pub fn cli_cases(tier: Tier) -> Vec<CliCase> {
+    let v = |xs: &[&str]| xs.iter().map(|s| s.to_string()).collect::<Vec<String>>();
+    let tok1 = v(&["a b", "ab a", "あ a1", "b ab"]);
+    let tok2 = v(&["a/X b/Y", "a/Z ab/Y a/X", "b/Y a/X"]);
+    let tokw = v(&["ａb 1２ ａ", "ab ａ ｂ/Q", "ﾗ－ ア―"]);
+    let part1 = v(&["a|b-a", "a b|a-a", "ａ-b|a"]);
+    let dict1 = v(&["ab", "a/D", "q/F/G"]);
+    let dict2 = v(&["ab", "ab", "ｂ", "ａb a"]);
+    let empty_line = v(&["a b", "", "b a"]);
+    type D = (Vec<Vec<String>>, Vec<Vec<String>>, Vec<Vec<String>>);
+    let data: Vec<(&str, D)> = vec![
+        ("tok", (vec![tok1.clone()], vec![], vec![])),
+        ("tagged+dict", (vec![tok2.clone()], vec![], vec![dict1.clone()])),
+        ("part", (vec![], vec![part1.clone()], vec![])),
+        ("two-tok+part+two-dict", (vec![tok1.clone(), tokw.clone()], vec![part1.clone()], vec![dict2.clone(), dict1.clone()])),
+        ("two-tok-swapped", (vec![tokw.clone(), tok1.clone()], vec![], vec![dict2.clone()])),
+        ("wide+dict", (vec![tokw.clone()], vec![], vec![dict2.clone()])),
+        ("tok-with-empty-line", (vec![empty_line.clone()], vec![], vec![])),
+        ("dict-with-empty-line", (vec![tok1.clone()], vec![], vec![empty_line.clone()])),
+        ("part-with-empty-line", (vec![tok1.clone()], vec![empty_line.clone()], vec![])),
+        ("no-boundary", (vec![v(&["ab", "abc"])], vec![], vec![])),
+    ];
+    let sizes: Vec<(u8, u8, u8, u8, u8)> = tier.pick(vec![(3, 3, 3, 3, 4), (1, 2, 2, 1, 1)], vec![(3, 3, 3, 3, 4), (1, 2, 2, 1, 1), (0, 1, 2, 2, 2), (2, 3, 0, 0, 255)]);
+    let mut out = vec![];
+    for (name, (tok, part, dict)) in &data {
+        for (si, &sz) in sizes.iter().enumerate() {
+            for solver in [2u8, 0] {
+                for no_norm in [false, true] {
+                    if tier == Tier::Quick && (si + solver as usize / 2 + no_norm as usize) % 2 == 1 && !name.contains("two-tok+") {
+                        continue;
+                    }
+                    out.push(CliCase { label: format!("{name}-s{si}-v{solver}-n{}", no_norm as u8), tok: tok.clone(), part: part.clone(), dict: dict.clone(), sizes: sz, solver, no_norm });
+                }
+            }
+        }
+    }
+    out
 }
